@@ -107,6 +107,7 @@ class SimNode:
             self._bake_one()
 
     def _bake_one(self):
+        self.classify_unprocessed()
         prev = self.head
         level = prev['level'] + 1
         self._bakes += 1
@@ -171,7 +172,16 @@ class SimNode:
 
     # ------------------------------------------------------------------ mempool
     def pending_of(self, pkh):
-        return sum(1 for op in self.mempool for c in op['contents'] if c['source'] == pkh)
+        """Contents of `pkh` pending in the mempool: validated ones plus those injected asynchronously and not yet classified."""
+        return sum(1 for op in self.mempool + self.other_classes['unprocessed'] for c in op['contents'] if c['source'] == pkh and op.get('own', True))
+
+    def classify_unprocessed(self):
+        """The prevalidator gets to the asynchronously injected operations: they become `validated`."""
+        moved = [op for op in self.other_classes['unprocessed'] if op.get('own')]
+        if moved:
+            self.other_classes['unprocessed'] = [op for op in self.other_classes['unprocessed'] if not op.get('own')]
+            self.mempool.extend(moved)
+            self.sim.ev('classified', n=len(moved))
 
     def add_noise_op(self, source, n=1, where='validated'):
         """An operation of another account, in the validated class or in one of the others."""
@@ -185,7 +195,7 @@ class SimNode:
             }
             contents.append({'kind': 'transaction', 'source': source, 'counter': base + 1 + i, 'fee': 500, 'gas_limit': 2000, 'json': j})
         h = oc.op_hash(b'noise%d/%s/%d' % (self.sim.seq, source.encode(), len(self.known_ops)))
-        op = {'hash': h, 'branch': self.head['hash'], 'contents': contents, 'raw': b'', 'signature_b58': 'sigNoise'}
+        op = {'hash': h, 'branch': self.head['hash'], 'contents': contents, 'raw': b'', 'signature_b58': 'sigNoise', 'own': False}
         if where == 'validated':
             self.mempool.append(op)
             self.known_ops[h] = 'mempool'
@@ -468,7 +478,14 @@ class SimNode:
                 j['destination'] = c['destination']
             c['json'] = j
             jcontents.append(j)
-        self.mempool.append({'hash': h, 'branch': branch, 'contents': contents, 'raw': raw, 'signature_b58': oc.b58enc('sig', sig) if len(sig) == 64 else 'BLsig'})
+        entry = {'hash': h, 'branch': branch, 'contents': contents, 'raw': raw, 'signature_b58': oc.b58enc('sig', sig) if len(sig) == 64 else 'BLsig', 'own': True}
+        if 'async=True' in (req.get('query') or '') and self.cfg.get('async_unprocessed', True):
+            # injected without waiting for prevalidation: listed as `unprocessed` until the prevalidator classifies it
+            self.other_classes['unprocessed'].append(entry)
+            self.stats['injections_unprocessed'] += 1
+            self.sim.after(int(self.cfg.get('classify_after_ms', 1500)), self.classify_unprocessed, 'classify')
+        else:
+            self.mempool.append(entry)
         self.known_ops[h] = 'mempool'
         self.stats['injections_accepted'] += 1
         return core.Reply.js(h)
